@@ -12,7 +12,7 @@ RULE = ("Real processes. Every cell of tool {assembler.py, file_util.py with a c
         "source} x switch {--to_bin, --to_cas, --to_dsk} x {--append, no append} x pre-existing target {absent, empty, "
         "cassette image of 1-3 files, disk image, raw binary, arbitrary bytes (random / truncated tape header / "
         "disk-sized garbage / all zeros / all $FF / one byte repeated / zeros then one byte / disk-sized garbage with a blank first directory slot: 12 shapes, each in every cell), "
-        "cassette >= 161,280 bytes; one disk variant stores a complete cassette image as a file} is enumerated (126 cells, 2 content variants each, 12 for arbitrary bytes); "
+        "cassette >= 161,280 bytes, a 40-track disk image (184,320 bytes); one disk variant stores a complete cassette image as a file} is enumerated (162 cells, 2 content variants each, 12 for arbitrary bytes); "
         "Hypothesis draws further contents for the cells and 2-4 invocation sequences on one path. Decision model: "
         "modification is permitted iff append and kind(existing) == kind being written, kind() decided by the "
         "independent readers (valid Disk BASIC image -> disk; tape grammar with >= 1 file -> cassette; zero-length -> "
@@ -24,13 +24,13 @@ ASSUMPTIONS = [
     "vlib/casref.py and vlib/dskref.py decide what kind of image a pre-existing target is",
     "a target that is both a valid disk image and starts with a valid tape (adversarial dual image) is not generated",
 ]
-HEALTH = {"pre:absent": 12, "pre:cas": 12, "pre:dsk": 12, "pre:bigcas": 3, "not_permitted": 0.12, "permitted": 0.02}
-EXHAUSTIVE = {"quick": ["all 126 cells of tool x switch x append x pre-existing target kind, 2 content variants each"],
-              "thorough": ["all 126 cells x 2 content variants"]}
+HEALTH = {"pre:absent": 12, "pre:cas": 12, "pre:dsk": 12, "pre:bigcas": 3, "pre:dsk40": 12, "not_permitted": 0.12, "permitted": 0.02}
+EXHAUSTIVE = {"quick": ["all 162 cells of tool x switch x append x pre-existing target kind, 2 content variants each"],
+              "thorough": ["all 162 cells x 2 content variants"]}
 
 TOOLS = ["asm", "fu_cas", "fu_dsk"]
 SWITCHES = ["--to_bin", "--to_cas", "--to_dsk"]
-PRES = ["absent", "empty", "cas", "dsk", "rawbin", "arbitrary", "bigcas", "blankdsk"]
+PRES = ["absent", "empty", "cas", "dsk", "rawbin", "arbitrary", "bigcas", "blankdsk", "dsk40"]
 N_ARBITRARY = 12
 PROGRAM = [" NAM PROG\n", " ORG $0E00\n", "START LDA #$41\n", " JSR $A30A\n", " BRA START\n", " FCB 1,2,3\n", " END START\n"]
 
@@ -43,7 +43,7 @@ def enumerated(tier, seed):
                     for variant in (range(N_ARBITRARY) if pre == "arbitrary" else (0, 1, 2) if pre == "dsk" else (0, 1)):
                         if pre in ("absent", "empty") and variant:
                             continue
-                        if pre in ("bigcas", "blankdsk") and variant:
+                        if pre in ("bigcas", "blankdsk", "dsk40") and variant:
                             continue
                         k = 63 + variant if pre == "arbitrary" else variant * 977 + 5      # every arbitrary-content shape
                         if pre == "dsk" and variant:
@@ -90,7 +90,7 @@ def enumerated(tier, seed):
 
 _step = st.fixed_dictionaries(dict(tool=st.sampled_from(TOOLS), switch=st.sampled_from(SWITCHES), append=st.booleans(),
                                    files=st.sampled_from([False, False, True, "nomatch"])))
-_cell = st.fixed_dictionaries(dict(steps=st.lists(_step, min_size=1, max_size=1), pre=st.sampled_from(PRES[:-2] + PRES[-1:]), k=st.integers(0, 10 ** 6)))
+_cell = st.fixed_dictionaries(dict(steps=st.lists(_step, min_size=1, max_size=1), pre=st.sampled_from(PRES[:-3] + PRES[-2:]), k=st.integers(0, 10 ** 6)))
 _seq = st.fixed_dictionaries(dict(steps=st.lists(_step, min_size=2, max_size=4), pre=st.sampled_from(["absent", "absent", "cas", "dsk", "rawbin"]),
                                   k=st.integers(0, 10 ** 6)))
 
@@ -163,6 +163,9 @@ def make_pre(pre, k):
             inner = make_cas(_small_files(rnd, 1, "cas"))
             files[0] = dict(files[0], name="TAPE", ftype=1, dtype=0xFF, load=0, exec=0, data=inner)
         return make_dsk(files, rnd, avoid_granule_zero=True), "dsk", files
+    if pre == "dsk40":          # a 40-track image: the 35-track layout followed by five more (unused) tracks
+        files = _small_files(rnd, 1 + k % 2, "dsk")
+        return make_dsk(files, rnd, avoid_granule_zero=True) + b"\xff" * (5 * 18 * 256), "dsk", files
     if pre == "blankdsk":       # a freshly formatted disk image: a disk holding no files
         return b"\xff" * dskref.IMAGE_SIZE, "dsk", []
     if pre == "rawbin":
@@ -206,10 +209,10 @@ def classify(raw):
         return "absent", []
     if len(raw) == 0:
         return "empty", []
-    if len(raw) == dskref.IMAGE_SIZE:
+    if len(raw) >= dskref.IMAGE_SIZE:       # a longer image (40 tracks) is a disk by its first 35 tracks
         try:
-            if not dskref.fsck(raw):
-                return "dsk", dskref.read(raw)
+            if not dskref.fsck(raw[:dskref.IMAGE_SIZE]):
+                return "dsk", dskref.read(raw[:dskref.IMAGE_SIZE])
         except dskref.DiskError:
             pass
     try:
